@@ -245,4 +245,31 @@ def _crash_after_every_unit(ctx):
     ctx.extra["crash_points_enumerated"] = total[0]
 
 
-install(globals(), props=("C17",), cases=cases, nontrivial=nontrivial, classes=classes, extra_monitors=(mon_c17,), stages=(_crash_after_every_unit,))
+def _directed(ctx):
+    """Fixed programs in which a context recorded with ReplayChildren (result above the patched limit) is the LAST completed
+    operation of the history an invocation resumes from, and logs after its last inner operation."""
+    from .. import wfcheck as WC
+
+    def S(v):
+        return {"op": "step", "beh": {"kind": "ret", "v": v}, "sem": "least", "retry": {"kind": "none"}}
+
+    def L(t):
+        return {"op": "log", "tag": t}
+
+    retry = {"op": "step", "beh": {"kind": "fail_by_attempt", "k": 1, "err": "UserError", "v": 1}, "sem": "least", "retry": {"kind": "table", "max": 3, "delays": [1], "nonretry": []}}
+    progs = [
+        [L("D1"), {"op": "child", "body": [L("D2"), S(1), L("D3")], "pad": 400}, retry, L("D4")],
+        [L("D1"), {"op": "child", "body": [S(1), {"op": "child", "body": [S(2), L("D2")], "pad": 400}, L("D3")], "pad": 400}, retry, L("D4")],
+        [{"op": "child", "body": [L("D1"), S(1), L("D2")], "pad": 400}, L("D3"), {"op": "wait", "secs": 1}, L("D4")],
+    ]
+    for i, body in enumerate(progs):
+        if ctx.nshards > 1 and i % ctx.nshards != ctx.shard % ctx.nshards:
+            continue
+        for fp in (None, 0, 1):
+            for cap in (True, "default"):
+                case = {"prog": {"body": body}, "limits": {"checkpoint": 300}, "keep_backend": ["prune_children"], "caplog": cap, "ext_default": {"after_pending": 0},
+                        "backend": {"response": "delta", "prune_children": True, "first_page": fp}, "plan": {"crashes": []}, "sched": [{"mode": "seq"}], "line": []}
+                WC.report_case(ctx, case, PROPS, nontrivial=nontrivial, classes=lambda r, c: ["directed:replay-children-context-last"] + classes(r, c), extra_monitors=(mon_c17,))
+
+
+install(globals(), props=("C17",), cases=cases, nontrivial=nontrivial, classes=classes, extra_monitors=(mon_c17,), stages=(_crash_after_every_unit, _directed))
